@@ -140,7 +140,7 @@ class Builder:
 
     def s_return_join(self, target):
         h, a = self.name("h"), self.name("a")
-        t1, t2 = self.draw(st.sampled_from([("int", "float"), ("float", "int"), ("int", "int"), ("float", "float"), ("bool", "bool"), ("str", "str")]))
+        t1, t2 = self.draw(st.sampled_from([("int", "float"), ("float", "int"), ("int", "int"), ("float", "float"), ("bool", "bool"), ("str", "str"), ("bool", "int"), ("int", "bool"), ("bool", "float")]))
         thr = self.draw(st.sampled_from([100, 500, 900]))
         self.pre += [f"def {h}({a}):", f"    if {a} > {thr}:", f"        return {self.val(t1)}", f"    return {self.val(t2)}"]
         x = self.name()
@@ -410,7 +410,7 @@ def program(off):
 
 
 DECL = re.compile(r"^\s*(?:const\s+)?(int|float|bool|String|long|double)\s+([A-Za-z_]\w*)\s*(?:=|;)", re.M)
-HOLDS = {"int": {"int", "float", "long", "double"}, "float": {"float", "double"}, "bool": {"bool", "int", "long"}, "str": {"String"}}
+HOLDS = {"int": {"int", "float", "long", "double"}, "float": {"float", "double"}, "bool": {"bool", "int", "long", "float", "double"}, "str": {"String"}}
 
 
 def static_type_check(cpp, observed):
